@@ -1,8 +1,384 @@
 /-
 C10 — ranges built from explicit version sets contain exactly what they should.
+
+`normalize o cs ks` is the model of `VersionRange.normalize(known_versions)` on constructed versions
+(`Model.lean`): sort the known versions with the real `<`, test each for membership with the real
+`__contains__`, group maximal runs of members, emit `=lo` or `>=lo|<=hi` per run, build the range
+(which sorts).  `fromVersions` is `VersionRange.from_versions`.
+
+The theorems hold for every scheme whose six operators are induced by a transitive three-way
+comparison (`Lawful o cmp`, discharged per scheme in C01/C02), every well-formed version-sorted
+range (what a `VersionRange` object holds, C07/C13) and every list of known versions.
 -/
-import Univers.Vers.Spec
+import Univers.Vers.NormalizeCanon
+import Univers.Vers.ValidateThm
+import Univers.Props.C04
+import Univers.Props.C07
 
 namespace Univers.C10
+
+open Univers Std
+
+variable {V : Type} {o : VOps V} {cmp : V → V → Ordering}
+
+/-! ### the pieces of `normalize` -/
+
+theorem leB_iff [OrientedCmp cmp] (h : Lawful o cmp) (a b : V) : (!o.lt b a) = true ↔ le' cmp a b := by
+  have hs : cmp b a = (cmp a b).swap := OrientedCmp.eq_swap
+  rw [h.lt, hs]
+  cases hc : cmp a b <;> simp_all [le', Ordering.swap]
+
+theorem sortVers_perm (ks : List V) : (sortVers o ks).Perm ks := List.mergeSort_perm _ _
+
+theorem sortVers_sorted [TransCmp cmp] (h : Lawful o cmp) (ks : List V) :
+    (sortVers o ks).Pairwise (le' cmp) := by
+  have := List.pairwise_mergeSort (le := fun a b => !o.lt b a)
+    (fun a b c hab hbc => by
+      have h1 := (leB_iff h a b).mp hab
+      have h2 := (leB_iff h b c).mp hbc
+      exact (leB_iff h a c).mpr (le'_trans h1 h2))
+    (fun a b => by
+      have hs : cmp b a = (cmp a b).swap := OrientedCmp.eq_swap
+      simp only [h.lt, hs]
+      cases cmp a b <;> simp [Ordering.swap]) ks
+  exact this.imp (fun hab => (leB_iff h _ _).mp hab)
+
+theorem memAll_ok [TransCmp cmp] (h : Lawful o cmp) (cs : List (Con V)) (hwf : WFSorted cmp cs) :
+    ∀ S : List V, memAll o cs S = .ok (S.map (fun k => (k, denote cmp cs k)))
+  | [] => rfl
+  | k :: t => by
+    simp only [memAll, C04.contains_eq_denote h cs hwf k, memAll_ok h cs hwf t, List.map_cons]
+
+/-- membership respects version equality -/
+theorem denote_equiv [TransCmp cmp] (cs : List (Con V)) {a b : V} (e : cmp a b = .eq) :
+    denote cmp cs a = denote cmp cs b :=
+  denote_congr cs (fun _ _ _ => TransCmp.congr_left e)
+
+theorem blocks_noStar (bs : List (V × V)) : noStar (bs.flatMap (blockCons o)) = true := by
+  apply List.all_eq_true.mpr
+  intro c hc
+  rw [(blocks_noNe bs c hc).2]; rfl
+
+theorem mkRange_blocks [TransCmp cmp] (h : Lawful o cmp) (bs : List (V × V)) (hs : blocksSorted cmp bs) :
+    mkRange o (bs.flatMap (blockCons o)) = .ok (bs.flatMap (blockCons o)) :=
+  sortCons_eq_of_perm h _ _ (List.Perm.refl _) (blocks_noStar bs) (blocks_strictSorted h bs hs)
+
+theorem sepBy_canon {mem : V → Bool} {S : List V} : ∀ (bs : List (V × V)), sepBy cmp mem S bs →
+    ∀ b c rest pre, bs = pre ++ b :: c :: rest →
+      ∃ k, k ∈ S ∧ mem k = false ∧ cmp b.2 k = .lt ∧ cmp k c.1 = .lt
+  | [], _, b, c, rest, pre, e => by cases pre <;> cases e
+  | [_], _, b, c, rest, pre, e => by
+    cases pre with
+    | nil => cases e
+    | cons p q => cases q <;> cases e
+  | x :: y :: r, ⟨⟨k, hk, h1, h2, h3⟩, hr⟩, b, c, rest, pre, e => by
+    cases pre with
+    | nil =>
+      injection e with e1 e2
+      injection e2 with e2 e3
+      subst e1; subst e2
+      exact ⟨k, hk, h1, h2, h3⟩
+    | cons p q =>
+      injection e with e1 e2
+      exact sepBy_canon (y :: r) hr b c rest q e2
+
+/-- the blocks the loop produces from the sorted known versions -/
+def blocksOf (o : VOps V) (cmp : V → V → Ordering) (cs : List (Con V)) (ks : List V) : List (V × V) :=
+  goBlocks (denote cmp cs) (sortVers o ks) none
+
+/-- **the result of `normalize`, as a canonical block list** -/
+theorem normalize_blocks [TransCmp cmp] (h : Lawful o cmp) (cs : List (Con V)) (hwf : WFSorted cmp cs)
+    (ks : List V) :
+    normalize o cs ks = .ok ((blocksOf o cmp cs ks).flatMap (blockCons o)) ∧
+    Canon cmp (· ∈ ks) (denote cmp cs) (fun _ => True) (blocksOf o cmp cs ks) := by
+  have hperm := sortVers_perm (o := o) ks
+  have hsorted := sortVers_sorted h ks
+  have hmem : ∀ a b, cmp a b = .eq → denote cmp cs a = denote cmp cs b := fun a b e => denote_equiv cs e
+  obtain ⟨g1, g2, g3⟩ := go_spec (denote cmp cs) hmem (sortVers o ks) none hsorted (fun c e => by cases e)
+  have g3' : ∀ b ∈ blocksOf o cmp cs ks, b.1 ∈ sortVers o ks ∧ denote cmp cs b.1 = true ∧ b.2 ∈ sortVers o ks := g3
+  have g4 := go_sep (denote cmp cs) hmem (sortVers o ks) none hsorted (fun c e => by cases e)
+  refine ⟨?_, ⟨g1, ?_, ?_, ?_⟩⟩
+  · unfold normalize
+    rw [memAll_ok h cs hwf]
+    simp only []
+    have := groupRuns_eq_goBlocks (o := o) (denote cmp cs) (sortVers o ks) []
+    rw [this]
+    exact mkRange_blocks h _ g1
+  · intro b hb
+    obtain ⟨a1, _, a3⟩ := g3' b hb
+    exact ⟨hperm.mem_iff.mp a1, hperm.mem_iff.mp a3, trivial⟩
+  · intro k hk _
+    exact g2 k (hperm.mem_iff.mpr hk)
+  · intro b c rest pre e
+    obtain ⟨k, hk, r⟩ := sepBy_canon _ g4 b c rest pre e
+    exact ⟨k, hperm.mem_iff.mp hk, r⟩
+
+/-! ### the clauses of the property -/
+
+/-- Normalising never fails, and validation accepts the result. -/
+theorem normalize_accepted [TransCmp cmp] (h : Lawful o cmp) (cs : List (Con V)) (hwf : WFSorted cmp cs)
+    (ks : List V) :
+    ∃ r, normalize o cs ks = .ok r ∧ WFSorted cmp r ∧ validate o r = .ok true := by
+  obtain ⟨e, hc⟩ := normalize_blocks h cs hwf ks
+  have hw := blocks_wfSorted h _ hc.sorted
+  exact ⟨_, e, hw, (C07.validate_iff_wf h _).mpr ⟨_, List.Perm.refl _, hw⟩⟩
+
+/-- The result is empty exactly when no known version is a member. -/
+theorem normalize_empty_iff [TransCmp cmp] (h : Lawful o cmp) (cs : List (Con V)) (hwf : WFSorted cmp cs)
+    (ks : List V) :
+    normalize o cs ks = .ok [] ↔ ∀ k ∈ ks, denote cmp cs k = false := by
+  obtain ⟨e, hc⟩ := normalize_blocks h cs hwf ks
+  rw [e]
+  constructor
+  · intro hnil k hk
+    have hb : blocksOf o cmp cs ks = [] := by
+      cases hbs : blocksOf o cmp cs ks with
+      | nil => rfl
+      | cons b t =>
+        rw [hbs, List.flatMap_cons] at hnil
+        injection hnil with hnil
+        have := blockCons_ne_nil (o := o) b
+        cases hb : blockCons o b with
+        | nil => exact absurd hb this
+        | cons c r => rw [hb] at hnil; cases hnil
+    have := hc.memb k hk trivial
+    rw [hb] at this
+    exact this.symm
+  · intro hall
+    cases hbs : blocksOf o cmp cs ks with
+    | nil => rfl
+    | cons b t =>
+      obtain ⟨k1, _, _⟩ := hc.ends b (by rw [hbs]; exact List.mem_cons_self)
+      have hin : inBlock cmp b.1 b = true :=
+        inBlock_iff.mpr ⟨le'_refl _, blocksSorted_mem_le hc.sorted b (by rw [hbs]; exact List.mem_cons_self)⟩
+      have := hc.memb b.1 k1 trivial
+      rw [hbs, List.any_cons, hin, hall b.1 k1] at this
+      cases this
+
+/-- The result contains a known version exactly when the original range does (and the test never
+raises). -/
+theorem normalize_members [TransCmp cmp] (h : Lawful o cmp) (cs : List (Con V)) (hwf : WFSorted cmp cs)
+    (ks : List V) :
+    ∃ r, normalize o cs ks = .ok r ∧ ∀ k ∈ ks,
+      containsVersion o k r = .ok (denote cmp cs k) ∧ containsVersion o k cs = .ok (denote cmp cs k) := by
+  obtain ⟨e, hc⟩ := normalize_blocks h cs hwf ks
+  refine ⟨_, e, fun k hk => ⟨?_, C04.contains_eq_denote h cs hwf k⟩⟩
+  rw [C04.contains_eq_denote h _ (blocks_wfSorted h _ hc.sorted) k, denote_blockList h,
+    hc.memb k hk trivial]
+
+/-- The result is a list of blocks in strictly increasing order, each `=v` or `>=lo|<=hi`; every bound
+is a known version and a member; each block holds members only; two consecutive blocks are separated
+by a known version that is not a member (so each block is a MAXIMAL run). -/
+theorem normalize_shape [TransCmp cmp] (h : Lawful o cmp) (cs : List (Con V)) (hwf : WFSorted cmp cs)
+    (ks : List V) :
+    ∃ bs : List (V × V), normalize o cs ks = .ok (bs.flatMap (blockCons o)) ∧ blocksSorted cmp bs ∧
+      (∀ b ∈ bs, b.1 ∈ ks ∧ b.2 ∈ ks ∧ denote cmp cs b.1 = true ∧ denote cmp cs b.2 = true) ∧
+      (∀ b ∈ bs, ∀ k ∈ ks, inBlock cmp k b = true → denote cmp cs k = true) ∧
+      (∀ b c rest pre, bs = pre ++ b :: c :: rest →
+        ∃ k ∈ ks, denote cmp cs k = false ∧ cmp b.2 k = .lt ∧ cmp k c.1 = .lt) := by
+  obtain ⟨e, hc⟩ := normalize_blocks h cs hwf ks
+  have hin : ∀ b ∈ blocksOf o cmp cs ks, ∀ k ∈ ks, inBlock cmp k b = true → denote cmp cs k = true := by
+    intro b hb k hk hkb
+    rw [← hc.memb k hk trivial]
+    exact List.any_eq_true.mpr ⟨b, hb, hkb⟩
+  refine ⟨_, e, hc.sorted, ?_, hin, ?_⟩
+  · intro b hb
+    obtain ⟨k1, k2, _⟩ := hc.ends b hb
+    have hle := blocksSorted_mem_le hc.sorted b hb
+    exact ⟨k1, k2, hin b hb b.1 k1 (inBlock_iff.mpr ⟨le'_refl _, hle⟩),
+      hin b hb b.2 k2 (inBlock_iff.mpr ⟨hle, le'_refl _⟩)⟩
+  · intro b c rest pre e'
+    obtain ⟨k, hk, r⟩ := hc.sep b c rest pre e'
+    exact ⟨k, hk, r⟩
+
+/-- every constraint of the result is `=v`, `>=v` or `<=v` for a known version `v` -/
+theorem normalize_bounds_known [TransCmp cmp] (h : Lawful o cmp) (cs : List (Con V)) (hwf : WFSorted cmp cs)
+    (ks : List V) :
+    ∃ r, normalize o cs ks = .ok r ∧
+      ∀ c ∈ r, ∃ v ∈ ks, c = .mk .eq v ∨ c = .mk .ge v ∨ c = .mk .le v := by
+  obtain ⟨e, hc⟩ := normalize_blocks h cs hwf ks
+  refine ⟨_, e, ?_⟩
+  intro c hcm
+  obtain ⟨b, hb, hcb⟩ := List.mem_flatMap.mp hcm
+  obtain ⟨k1, k2, _⟩ := hc.ends b hb
+  unfold blockCons at hcb
+  split at hcb
+  · simp at hcb; exact ⟨b.1, k1, Or.inl hcb⟩
+  · simp at hcb
+    rcases hcb with rfl | rfl
+    · exact ⟨b.1, k1, Or.inr (Or.inl rfl)⟩
+    · exact ⟨b.2, k2, Or.inr (Or.inr rfl)⟩
+
+/-! ### the result depends only on the membership of the known versions -/
+
+theorem goBlocks_congr {mem mem' : V → Bool} : ∀ (S : List V) (cur : Option (V × V)),
+    (∀ k ∈ S, mem k = mem' k) → goBlocks mem S cur = goBlocks mem' S cur
+  | [], none, _ => rfl
+  | [], some _, _ => rfl
+  | k :: t, cur, hk => by
+    have ht : ∀ x ∈ t, mem x = mem' x := fun x hx => hk x (List.mem_cons_of_mem _ hx)
+    simp only [goBlocks, ← hk k List.mem_cons_self]
+    split
+    · exact goBlocks_congr t _ ht
+    · cases cur with
+      | none => exact goBlocks_congr t _ ht
+      | some b => simp only []; rw [goBlocks_congr t none ht]
+
+/-- Two ranges that agree on the known versions normalise to the same range. -/
+theorem normalize_extensional [TransCmp cmp] (h : Lawful o cmp) (cs cs' : List (Con V))
+    (hwf : WFSorted cmp cs) (hwf' : WFSorted cmp cs') (ks : List V)
+    (hag : ∀ k ∈ ks, denote cmp cs k = denote cmp cs' k) :
+    normalize o cs ks = normalize o cs' ks := by
+  rw [(normalize_blocks h cs hwf ks).1, (normalize_blocks h cs' hwf' ks).1]
+  unfold blocksOf
+  rw [goBlocks_congr (sortVers o ks) none (fun k hk => hag k ((sortVers_perm ks).mem_iff.mp hk))]
+
+/-! ### any ordering or duplication of the list -/
+
+/-- same comparators, equal versions -/
+def consEquiv (cmp : V → V → Ordering) : List (Con V) → List (Con V) → Prop
+  | [], [] => True
+  | .mk k v :: t, .mk k' v' :: t' => k = k' ∧ cmp v v' = .eq ∧ consEquiv cmp t t'
+  | _, _ => False
+
+theorem consEquiv_append {a a' b b' : List (Con V)} (h1 : consEquiv cmp a a') (h2 : consEquiv cmp b b') :
+    consEquiv cmp (a ++ b) (a' ++ b') := by
+  induction a generalizing a' with
+  | nil =>
+    cases a' with
+    | nil => exact h2
+    | cons c t => exact h1.elim
+  | cons c t ih =>
+    cases a' with
+    | nil => cases c <;> exact h1.elim
+    | cons c' t' =>
+      cases c with
+      | star => exact h1.elim
+      | mk k v =>
+        cases c' with
+        | star => exact h1.elim
+        | mk k' v' => exact ⟨h1.1, h1.2.1, ih h1.2.2⟩
+
+theorem blockCons_equiv [TransCmp cmp] (h : Lawful o cmp) {b b' : V × V} (e : blockEquiv cmp b b') :
+    consEquiv cmp (blockCons o b) (blockCons o b') := by
+  have hc : cmp b.1 b.2 = cmp b'.1 b'.2 := by
+    rw [TransCmp.congr_left e.1, TransCmp.congr_right e.2]
+  unfold blockCons
+  rw [h.eq, h.eq, hc]
+  split
+  · exact ⟨rfl, e.1, trivial⟩
+  · exact ⟨rfl, e.1, rfl, e.2, trivial⟩
+
+theorem blocks_consEquiv [TransCmp cmp] (h : Lawful o cmp) : ∀ (bs bs' : List (V × V)),
+    blocksEquiv cmp bs bs' → consEquiv cmp (bs.flatMap (blockCons o)) (bs'.flatMap (blockCons o))
+  | [], [], _ => trivial
+  | [], _ :: _, e => e.elim
+  | _ :: _, [], e => e.elim
+  | b :: t, b' :: t', e => by
+    simp only [List.flatMap_cons]
+    exact consEquiv_append (blockCons_equiv h e.1) (blocks_consEquiv h t t' e.2)
+
+/-- Two lists of known versions with the same elements — any order, any duplication — give the same
+result: the same comparators in the same order, on equal versions. -/
+theorem normalize_order_and_duplicates [TransCmp cmp] (h : Lawful o cmp) (cs : List (Con V))
+    (hwf : WFSorted cmp cs) (ks ks' : List V) (hset : ∀ v, v ∈ ks ↔ v ∈ ks') :
+    ∃ r r', normalize o cs ks = .ok r ∧ normalize o cs ks' = .ok r' ∧ consEquiv cmp r r' := by
+  obtain ⟨e, hc⟩ := normalize_blocks h cs hwf ks
+  obtain ⟨e', hc'⟩ := normalize_blocks h cs hwf ks'
+  refine ⟨_, _, e, e', blocks_consEquiv h _ _ ?_⟩
+  have hc'' : Canon cmp (· ∈ ks) (denote cmp cs) (fun _ => True) (blocksOf o cmp cs ks') :=
+    ⟨hc'.sorted,
+     fun b hb => by
+       obtain ⟨a1, a2, a3⟩ := hc'.ends b hb
+       exact ⟨(hset _).mpr a1, (hset _).mpr a2, a3⟩,
+     fun k hk p => hc'.memb k ((hset k).mp hk) p,
+     fun b c rest pre e => by
+       obtain ⟨k, hk, r⟩ := hc'.sep b c rest pre e
+       exact ⟨k, (hset k).mpr hk, r⟩⟩
+  exact canon_unique _ _ _ (fun _ _ _ _ => trivial) hc hc''
+
+/-! ### `from_versions` -/
+
+theorem contains_allEq [OrientedCmp cmp] (h : Lawful o cmp) (x : V) :
+    ∀ (r : List (Con V)), (∀ c ∈ r, c.isEq = true) →
+      containsVersion o x r = .ok (r.any (fun c => c.at cmp x)) := by
+  intro r hr
+  have hform : ∀ c ∈ r, ∃ v, c = .mk .eq v := by
+    intro c hc
+    have := hr c hc
+    cases c with
+    | star => simp [Con.isEq] at this
+    | mk k v => cases k <;> simp [Con.isEq] at this; exact ⟨v, rfl⟩
+  have hmulti : containsMulti o x r = .ok (r.any (fun c => c.at cmp x)) := by
+    unfold containsMulti
+    have h1 : r.any (fun c => c.hasNeSub && c.verEq o x) = false := by
+      apply Bool.eq_false_iff.mpr
+      intro hh
+      obtain ⟨c, hc, hcc⟩ := List.any_eq_true.mp hh
+      obtain ⟨v, rfl⟩ := hform c hc
+      simp [Con.hasNeSub, Cmpr.hasNeSub] at hcc
+    have h2 : r.any (fun c => c.hasEqChar && c.verEq o x) = r.any (fun c => c.at cmp x) := by
+      apply any_congr_mem
+      intro c hc
+      obtain ⟨v, rfl⟩ := hform c hc
+      simp [Con.hasEqChar, Cmpr.hasEqChar, Con.verEq, Con.at, h.eq]
+    rw [h1, h2]
+    simp only [Bool.false_eq_true, if_false]
+    split
+    · next ht => rw [ht]
+    · next hf =>
+      have hfil : r.filter (fun c => !(c.isEq || c.isNe)) = [] := by
+        apply List.filter_eq_nil_iff.mpr
+        intro c hc
+        simp [hr c hc]
+      rw [hfil]
+      have hnne : r.all (fun c => c.isNe) = false ∨ r = [] := by
+        cases r with
+        | nil => exact Or.inr rfl
+        | cons c t =>
+          obtain ⟨v, rfl⟩ := hform c List.mem_cons_self
+          exact Or.inl (by simp [Con.isNe])
+      have hf' : r.any (fun c => c.at cmp x) = false := by cases hh : r.any (fun c => c.at cmp x) <;> simp_all
+      rcases hnne with hn | rfl
+      · simp [containsBounds, hn, hf']
+      · simp [containsBounds]
+  match r, hr, hform, hmulti with
+  | [c], _, hform, _ =>
+    obtain ⟨v, rfl⟩ := hform c List.mem_cons_self
+    simp [containsVersion, Con.sat, VOps.op, Con.at, h.eq]
+  | [], _, _, hm => exact hm
+  | a :: b :: t, _, _, hm => exact hm
+
+/-- A range built from a list of versions (any order, duplicates allowed) contains exactly the
+versions equal to a listed one, and the test never raises. -/
+theorem fromVersions_contains [TransCmp cmp] (h : Lawful o cmp) (vs : List V) (x : V) :
+    ∃ r, fromVersions o vs = .ok r ∧ r.Perm (vs.map (fun v => Con.mk .eq v)) ∧
+      containsVersion o x r = .ok (vs.any (fun v => cmp x v == .eq)) := by
+  have hns : noStar (vs.map (fun v => Con.mk .eq v)) = true := by
+    apply List.all_eq_true.mpr
+    intro c hc
+    obtain ⟨v, _, rfl⟩ := List.mem_map.mp hc
+    rfl
+  have he : fromVersions o vs = .ok ((vs.map (fun v => Con.mk .eq v)).mergeSort (fun a b => conLe o a b)) := by
+    unfold fromVersions mkRange
+    exact sortCons_noStar _ hns
+  have hp := List.mergeSort_perm (vs.map (fun v => Con.mk .eq v)) (fun a b => conLe o a b)
+  refine ⟨_, he, hp, ?_⟩
+  rw [contains_allEq h x]
+  · rw [hp.any_eq, List.any_map]
+    rfl
+  · intro c hc
+    obtain ⟨v, _, rfl⟩ := List.mem_map.mp (hp.mem_iff.mp hc)
+    rfl
+
+/-! ### non-vacuity: the hypotheses are met, and the block builder on a concrete instance -/
+
+example : Lawful (opsOf C04.intCmp) C04.intCmp ∧
+    WFSorted C04.intCmp [.mk .ne 1, .mk .le 3, .mk .ne 6, .mk .eq 9] :=
+  ⟨opsOf_lawful _, Or.inr ⟨by decide, by simp [StrictSorted, C04.intCmp]; decide, by decide, by decide⟩⟩
+
+/-- the sorted known versions 1,3,3,5,6,9,9,9 against `!=1|<=3|!=6|=9`: the runs are [3,3] and [9,9,9] -/
+example : goBlocks (denote C04.intCmp [.mk .ne 1, .mk .le 3, .mk .ne 6, .mk .eq 9]) [1, 3, 3, 5, 6, 9, 9, 9] none
+    = [(3, 3), (9, 9)] := by decide
 
 end Univers.C10
